@@ -13,6 +13,7 @@
 //	running   a second start / retry while the first is active       (C16: refused silently, first untouched)
 //	normal    control: a plain run                                   (steps + handlers run, one history file)
 //	bindfail  the socket path cannot be bound                        (run recorded, nothing executed)
+//	race      (only when named) the probe/bind race made deterministic by holding one agent after its probe (C16, F16a)
 //
 // default: all.  One JSON object per line, see type Case.  `log` is the ordered list of what the agent did:
 // "probe", "removeold", "open", "write", "close", "exec:<step or handler name>".
@@ -50,37 +51,38 @@ type StepJ struct {
 
 // Obs is what one agent.Run did.
 type Obs struct {
-	Err        string   `json:"err"`         // error text returned by Run ("" = nil)
-	ErrKind    string   `json:"err_kind"`    // none | cycle | missing | precondition | running | socket | step | other
-	Log        []string `json:"log"`         // ordered: probe, removeold, open, write, close, exec:<name>
-	Exec       []string `json:"exec"`        // sorted names of the steps / handlers whose executor Run was entered
-	HistFiles  []string `json:"hist_files"`  // files under the data directory after the run (relative)
-	SockSeen   bool     `json:"sock_seen"`   // the socket path existed at some instant during the run
-	SockAfter  bool     `json:"sock_after"`  // ... still exists after Run returned
-	Final      string   `json:"final"`       // agent.Status().Status text after the run ("" if unavailable)
+	Err        string   `json:"err"`        // error text returned by Run ("" = nil)
+	ErrKind    string   `json:"err_kind"`   // none | cycle | missing | precondition | running | socket | step | other
+	Log        []string `json:"log"`        // ordered: probe, removeold, open, write, close, exec:<name>
+	Exec       []string `json:"exec"`       // sorted names of the steps / handlers whose executor Run was entered
+	HistFiles  []string `json:"hist_files"` // files under the data directory after the run (relative)
+	SockSeen   bool     `json:"sock_seen"`  // the socket path existed at some instant during the run
+	SockAfter  bool     `json:"sock_after"` // ... still exists after Run returned
+	Final      string   `json:"final"`      // agent.Status().Status text after the run ("" if unavailable)
 	DurationMs int64    `json:"duration_ms"`
-	Hung       bool     `json:"hung"`        // Run did not return within the watchdog time (the log is what was seen until then)
-	Stopped    bool     `json:"stopped"`     // ... and returned after the driver sent it SIGTERM
+	Hung       bool     `json:"hung"`    // Run did not return within the watchdog time (the log is what was seen until then)
+	Stopped    bool     `json:"stopped"` // ... and returned after the driver sent it SIGTERM
 }
 
 type Case struct {
-	K        int      `json:"k"`
-	Class    string   `json:"class"`
-	Sub      string   `json:"sub"`
-	Steps    []StepJ  `json:"steps"`
-	Handlers []string `json:"handlers"`
-	Dry      bool     `json:"dry"`
-	HasPre   bool     `json:"has_pre"`
-	PreOk    bool     `json:"pre_ok"`
-	Retry    bool     `json:"retry"`         // the observed run is a retry (Options.RetryTarget set)
-	Running  bool     `json:"probe_running"` // another agent of the same DAG file was active when this run started
-	BindOk   bool     `json:"bind_ok"`
-	Obs               // the observed run (for class running: the SECOND run)
-	First        *Obs   `json:"first,omitempty"`         // class running: the first run, after it finished
-	StatusBefore string `json:"status_before,omitempty"` // class running: endpoint answer before / after the second attempt
-	StatusAfter  string `json:"status_after,omitempty"`
-	HistDuring   int    `json:"hist_during"` // class running: history files while the first was active, after the second attempt
-	Infra        string `json:"infra,omitempty"` // the driver itself failed (not an observation)
+	K            int      `json:"k"`
+	Class        string   `json:"class"`
+	Sub          string   `json:"sub"`
+	Steps        []StepJ  `json:"steps"`
+	Handlers     []string `json:"handlers"`
+	Dry          bool     `json:"dry"`
+	HasPre       bool     `json:"has_pre"`
+	PreOk        bool     `json:"pre_ok"`
+	Retry        bool     `json:"retry"`         // the observed run is a retry (Options.RetryTarget set)
+	Running      bool     `json:"probe_running"` // another agent of the same DAG file was active when this run started
+	BindOk       bool     `json:"bind_ok"`
+	Obs                   // the observed run (for class running: the SECOND run)
+	First        *Obs     `json:"first,omitempty"`         // class running: the first run, after it finished
+	StatusBefore string   `json:"status_before,omitempty"` // class running: endpoint answer before / after the second attempt
+	StatusAfter  string   `json:"status_after,omitempty"`
+	HistDuring   int      `json:"hist_during"`      // class running: history files while the first was active, after the second attempt
+	Others       []*Obs   `json:"others,omitempty"` // class race: the runs B and C
+	Infra        string   `json:"infra,omitempty"`  // the driver itself failed (not an observation)
 }
 
 // ---------------------------------------------------------------------------------------------
@@ -121,27 +123,35 @@ func (c *recClient) GetCurrentStatus(d *dag.DAG) (*model.Status, error) {
 
 type recStores struct {
 	persistence.DataStores
-	rec *recorder
-	hs  *recHist
-	mu  sync.Mutex
+	rec  *recorder
+	hs   *recHist
+	mu   sync.Mutex
+	gate chan struct{}
 }
 
 func (s *recStores) HistoryStore() persistence.HistoryStore {
 	s.mu.Lock()
 	defer s.mu.Unlock()
 	if s.hs == nil {
-		s.hs = &recHist{HistoryStore: s.DataStores.HistoryStore(), rec: s.rec}
+		s.hs = &recHist{HistoryStore: s.DataStores.HistoryStore(), rec: s.rec, gate: s.gate}
 	}
 	return s.hs
 }
 
 type recHist struct {
 	persistence.HistoryStore
-	rec *recorder
+	rec  *recorder
+	gate chan struct{} // when set, Open waits here (after the probe, before anything is recorded)
 }
 
 func (h *recHist) Open(f string, t time.Time, id string) error {
 	h.rec.add("open")
+	if h.gate != nil {
+		select {
+		case <-h.gate:
+		case <-time.After(20 * time.Second):
+		}
+	}
 	return h.HistoryStore.Open(f, t, id)
 }
 func (h *recHist) Write(st *model.Status) error { h.rec.add("write"); return h.HistoryStore.Write(st) }
@@ -270,6 +280,7 @@ type runner struct {
 	done chan struct{}
 	obs  Obs
 	held bool
+	gate chan struct{}
 }
 
 func errKind(err error) string {
@@ -316,6 +327,11 @@ func (s *spec) stores() persistence.DataStores {
 
 // prepare loads the DAG (written with this run's tag) and builds the agent
 func prepare(s *spec, tag string, opts *agent.Options) (*runner, error) {
+	return prepareG(s, tag, opts, nil)
+}
+
+// prepareG: as prepare; with a gate, the agent waits inside its history Open (after its probe) until the gate is closed
+func prepareG(s *spec, tag string, opts *agent.Options, gate chan struct{}) (*runner, error) {
 	r := &runner{s: s, tag: tag, rec: &recorder{}, done: make(chan struct{})}
 	r.rc = &runCtx{rec: r.rec, release: make(chan struct{})}
 	runsMu.Lock()
@@ -341,7 +357,8 @@ func prepare(s *spec, tag string, opts *agent.Options) (*runner, error) {
 			}
 		}
 	}
-	ds := &recStores{DataStores: s.stores(), rec: r.rec}
+	r.gate = gate
+	ds := &recStores{DataStores: s.stores(), rec: r.rec, gate: r.gate}
 	cli := &recClient{Client: client.New(ds, "", s.dir, lg), rec: r.rec}
 	r.agt = agent.New("req-"+tag, wf, lg, filepath.Join(s.dir, "logs"), filepath.Join(s.dir, "logs", tag+".log"), cli, ds, opts)
 	return r, nil
@@ -674,6 +691,78 @@ func running(k int, rng *vh.Rng, work string, sub string, retry bool) Case {
 	return c
 }
 
+// the probe/bind race, deterministically: A is held after its probe (inside its history Open); B starts, binds and
+// blocks inside a step; A is released: it removes B's socket, binds and runs; after A has finished nothing answers on
+// the path although B is still active, and a third start C is let in.  Observed run = A; others under `others`.
+func race(k int, rng *vh.Rng, work string) Case {
+	c := Case{K: k, Class: "race", Sub: "probe-bind"}
+	s := &spec{dir: filepath.Join(work, fmt.Sprintf("c%d", k)), name: fmt.Sprintf("d%d", k), modes: map[string]string{}}
+	s.steps = validSteps(rng)
+	s.handlers = []string{"exit"}
+	fill(&c, s)
+	gate := make(chan struct{})
+	a, err := prepareG(s, fmt.Sprintf("t%da", k), &agent.Options{}, gate)
+	if err != nil {
+		c.Infra = err.Error()
+		return c
+	}
+	go a.run()
+	if !a.waitFor("open", 10*time.Second) {
+		c.Infra = "A never reached its history open"
+		close(gate)
+		<-a.done
+		return c
+	}
+	sb := *s
+	sb.modes = map[string]string{nm(0): "block"}
+	b, err := prepare(&sb, fmt.Sprintf("t%db", k), &agent.Options{})
+	if err != nil {
+		c.Infra = err.Error()
+		close(gate)
+		<-a.done
+		return c
+	}
+	b.held = true
+	go b.run()
+	if !b.waitFor("exec:"+nm(0), 10*time.Second) {
+		c.Infra = "B never started its steps"
+		close(gate)
+		close(b.rc.release)
+		<-a.done
+		<-b.done
+		return c
+	}
+	cli := client.New(s.stores(), "", s.dir, lg)
+	status := func() string {
+		st, err := cli.GetCurrentStatus(b.wf)
+		if err != nil {
+			return "error:" + err.Error()
+		}
+		return st.Status.String()
+	}
+	c.StatusBefore = status() // B answers
+	sa := *s
+	sa.modes = map[string]string{}
+	_ = os.WriteFile(s.file(), []byte(sa.yaml(a.tag)), 0o644)
+	close(gate)
+	<-a.done
+	c.Obs = a.obs
+	c.StatusAfter = status() // nobody answers although B is active
+	sc := *s
+	sc.modes = map[string]string{}
+	third, err := prepare(&sc, fmt.Sprintf("t%dc", k), &agent.Options{})
+	if err == nil {
+		third.run()
+	}
+	close(b.rc.release)
+	<-b.done
+	c.Others = []*Obs{&b.obs}
+	if third != nil {
+		c.Others = append(c.Others, &third.obs)
+	}
+	return c
+}
+
 func main() {
 	out, err := vh.NewOut(os.Args[1])
 	if err != nil {
@@ -714,6 +803,9 @@ func main() {
 	}
 	if on("bindfail") {
 		add(4*mult, func(k int, rng *vh.Rng) Case { return single(k, rng, work, "bindfail") })
+	}
+	if want["race"] { // only on request (C16)
+		add(4*mult, func(k int, rng *vh.Rng) Case { return race(k, rng, work) })
 	}
 	if on("running") {
 		for _, sub := range []string{"steps", "handler", "after"} {
